@@ -28,7 +28,7 @@ FLAGS = list(itertools.product((True, False), (False, True), (False, True)))  # 
 
 VARIANTS = ("generic", "zeros", "loud_then_quiet", "outlier", "tiny", "strided", "reversed_view",
             "bigendian", "via_deepcopy", "via_pickle", "second_call", "generic_fpstrict", "zeros_fpstrict",
-            "loud_then_quiet_fpstrict")
+            "loud_then_quiet_fpstrict", "spelled_int", "spelled_npbool")
 
 
 def RTOL(bank):
@@ -49,6 +49,8 @@ def _signal(seed, N, variant):
     there); tiny amplitudes around the log floor"""
     x = sig.signal(seed, N)
     variant = variant.split("+")[0].replace("_fpstrict", "")
+    if variant.startswith("spelled_"):
+        variant = "generic"
     if variant == "zeros":
         return np.zeros(N)
     if variant == "loud_then_quiet":
@@ -133,7 +135,11 @@ def _eval(pt, seed):
                     if floor is not None:
                         # the documented package constant changes AFTER the computer was built
                         config.LOG_FLOOR_VALUE = floor
-                    rc = computers.call(_route, comp, variant, seed)
+                    if variant.startswith("spelled_"):
+                        # the same computer with its flags given as 0/1 or numpy bools
+                        rc = computers.call(cfg.make_computer, dict(c, spelling=variant[8:]))
+                    else:
+                        rc = computers.call(_route, comp, variant, seed)
                     if rc[0] != "ok":
                         viol.append(core.violation(dict(tags, what="exception", exc=rc[1], route=variant),
                                                    "%s of the computer raised %s: %s" % (variant, rc[1], rc[2]),
@@ -215,6 +221,8 @@ def _replay(case, seed):
     try:
         if floor is not None:
             config.LOG_FLOOR_VALUE = floor
+        if case["signal"].startswith("spelled_"):
+            comp = cfg.make_computer(dict(c, spelling=case["signal"][8:]))
         with np.errstate(all="raise" if case["signal"].endswith("_fpstrict") else None):
             r = computers.call(lambda: _route(comp, case["signal"], seed).compute_full(sig.rov(x)))
     finally:
@@ -380,7 +388,7 @@ def subchecks(tier, seed):
         core.SubCheck(
             "definition", pts, lambda p: _eval(p, seed),
             "real compute_full vs definitional reference at every lattice point; inner loop: "
-            "use_log x use_power x include_energy x N in {0,L//2,L//2+1,L,2L+1,3L+S} (x data/route alphabet {generic, zeros, loud-then-quiet, outlier, tiny, strided view, negative-stride view, big-endian, computer via deepcopy, via pickle round trip, after an earlier compute_full, numpy error state all='raise' with generic / zero / loud-then-quiet signals} at N=L and 3L+S); "
+            "use_log x use_power x include_energy x N in {0,L//2,L//2+1,L,2L+1,3L+S} (x data/route alphabet {generic, zeros, loud-then-quiet, outlier, tiny, strided view, negative-stride view, big-endian, computer via deepcopy, via pickle round trip, after an earlier compute_full, numpy error state all='raise' with generic / zero / loud-then-quiet signals, constructor flags spelled 0/1 and numpy.bool_} at N=L and 3L+S); "
             "non-trivial = at least one frame produced",
             axes=dict(bank=banks, L=list(Ls), S="{1,2,3,L}", pad=[True, False],
                       style=["causal", "centered", "centered+kaldi"], window=["hamming", "default"]),
